@@ -563,6 +563,7 @@ func (cb *chunkBuilder) reset() {
 
 func (cb *chunkBuilder) add(cols map[string]*btapb.ColumnFamily, r *btpb.Row) bool {
 	scrubRow(r, cols)
+	before := len(cb.chunks)
 	newRow := true
 	for _, fam := range r.Families {
 		newFam := true
@@ -598,9 +599,10 @@ func (cb *chunkBuilder) add(cols map[string]*btapb.ColumnFamily, r *btpb.Row) bo
 	}
 	// We can't have a cell with just COMMIT set, which would imply a new empty cell.
 	// So modify the last cell to have the COMMIT flag set.
-	if len(cb.chunks) > 0 {
-		cb.chunks[len(cb.chunks)-1].RowStatus = &btpb.ReadRowsResponse_CellChunk_CommitRow{CommitRow: true}
+	if len(cb.chunks) == before {
+		return false // the row has no cells left: nothing was added
 	}
+	cb.chunks[len(cb.chunks)-1].RowStatus = &btpb.ReadRowsResponse_CellChunk_CommitRow{CommitRow: true}
 	return true
 }
 
